@@ -225,6 +225,15 @@ def copy_kwargs(kind, name, orig):
         return {"position": a}, {"position": np.array(a)}, []
     if name == "orientation":
         return {"orientation": R.from_rotvec((0.3, 0.2, 0.1))}, {}, []
+    if name == "orientation_none":          # the documented value for the unit rotation
+        return {"orientation": None}, {}, []
+    if name == "position+orientation":
+        return {"position": (7, 8, 9), "orientation": R.from_rotvec((0.3, 0.2, 0.1))}, {"position": (7, 8, 9)}, []
+    if name == "orientation+position":       # the same pair, keywords in the other order
+        return {"orientation": R.from_rotvec((0.3, 0.2, 0.1)), "position": (7, 8, 9)}, {"position": (7, 8, 9)}, []
+    if name == "pospath+oripath":
+        a = np.array([(7.0, 8, 9), (1, 1, 1)])
+        return {"position": a, "orientation": R.from_rotvec([(0.3, 0.2, 0.1), (0, 0, 0.4)])}, {"position": a.copy()}, [a]
     if name == "excitation_ndarray":
         for attr, val in (("polarization", np.array((0.5, 0.6, 0.7))), ("current", None), ("moment", np.array((3.0, 2, 1)))):
             if hasattr(orig, attr) and val is not None:
@@ -267,7 +276,8 @@ REJECTED_KW = {"bad_position": {"position": (1, 2)}, "bad_orientation": {"orient
                "bad_style": {"style_nonexistent": 1}, "bad_late": {"style_label": "ok", "position": "bad"}}
 
 
-COPY_KW = ["none", "position", "position_ndarray", "position_from_getter", "orientation", "excitation_ndarray",
+COPY_KW = ["none", "position", "position_ndarray", "position_from_getter", "orientation", "orientation_none", "position+orientation",
+           "orientation+position", "pospath+oripath", "excitation_ndarray",
            "geometry_ndarray", "geometry_from_getter", "style_label", "style_color", "style_dict", "parent_empty", "parent_nonempty"]
 COPY_KW_REJECTED = list(REJECTED_KW) + ["bad_uncopyable"]
 
@@ -500,6 +510,33 @@ def run_case(case):
         got = getattr(cp, attr)
         if not np.array_equal(np.array(got, float), np.array(val, float)):
             problems.append(f"copy kwarg {attr} not applied")
+    # differential oracle for attribute overrides: copy(**kw) is copy() followed by the assignments, in keyword order
+    attr_kw = {k: v for k, v in kw.items() if k != "parent" and k != "style" and not k.startswith("style_")}
+    if attr_kw and not problems:
+        try:
+            ref = twin.copy()
+            for k, v in attr_kw.items():
+                setattr(ref, k, v.copy() if isinstance(v, np.ndarray) else v)
+        except Exception as e:
+            ref = None
+        if ref is not None:
+            materialise(ref)
+            pr, pc = public_sig(ref), public_sig(cp)
+            pr.pop("style", None), pc.pop("style", None)
+
+            def strip(d):
+                for ch in d.get("children", []):
+                    ch.pop("style", None)
+                    strip(ch)
+                return d
+
+            if strip(pr) != strip(pc):
+                diff = [k for k in pr if pr[k] != pc.get(k)]
+                problems.append(f"copy({', '.join(attr_kw)}) differs from copy() followed by the assignments in: {diff[:4]}")
+            else:
+                Br, Bc2 = getB_of(ref), getB_of(cp)
+                if isinstance(Br, np.ndarray) and (not isinstance(Bc2, np.ndarray) or not np.array_equal(Br, Bc2)):
+                    problems.append(f"copy({', '.join(attr_kw)}) gives another field than copy() followed by the assignments")
     if problems:
         return {"problems": problems, "stage": "copy"}
     # --- mutation on one side
@@ -548,7 +585,7 @@ def enumerate_cases(tier):
                                       "mut": "none", "side": "orig"})
                     for kw in COPY_KW:
                         full = tier == "thorough" or (
-                            kw in ("none", "position_ndarray", "parent_empty", "position_from_getter", "geometry_from_getter", "style_dict")
+                            kw in ("none", "position_ndarray", "parent_empty", "position_from_getter", "geometry_from_getter", "style_dict", "pospath+oripath")
                             and ((plen == 1 and not par) or (plen == 3 and par and sstate == "materialised" and kw == "none")))
                         muts = mutnames if full else ["move_scalar", "inplace__position", "style_update"]
                         if tier == "quick" and plen == 3 and sstate == "untouched" and kw != "none":
